@@ -603,6 +603,9 @@ def expr_slice(pid, cfg, tier, seed, workdir, rep, stats, findings):
     if cfg.get("run_profiles"):
         run_slice(pid, cfg, cfg["run_" + tier], seed, workdir, rep, stats, profiles=cfg["run_profiles"])
         stats["_distinct"] = distinct | stats.get("_distinct", set()) if isinstance(stats.get("_distinct"), set) else distinct
+    # same spelling, different types in two tasks: the branch taken is the value of the guard
+    import kind_check
+    kind_check.guard_branch_slice(pid, 30 if tier == "quick" else 600, seed, workdir, rep, stats)
     return samples
 
 
